@@ -33,14 +33,14 @@ Definition is_end_of (k : option ttok) (i : nat) : bool :=
 
 (* ---------------------------------------------------------------- Dyck nesting of a range *)
 (* [dyck t i e]: the tokens in [i, e) are a concatenation of complete values: leaves,
-   `Header container`, or `container ... End`, each container's [end] pointing at its own End
+   `Header container` (both inside the range), or `container ... End`, each container's [end] pointing at its own End
    token which points back. *)
 Inductive dyck (t : ttape) : nat -> nat -> Prop :=
 | dyck_nil : forall i, dyck t i i
 | dyck_leaf : forall i e k,
     tget t i = Some k -> is_leaf k = true -> dyck t (S i) e -> dyck t i e
 | dyck_header : forall i e s k,
-    tget t i = Some (THeader s) -> tget t (S i) = Some k -> is_container k = true ->
+    tget t i = Some (THeader s) -> tget t (S i) = Some k -> is_container k = true -> S i < e ->
     dyck t (S i) e -> dyck t i e
 | dyck_cont : forall i e k e',
     tget t i = Some k -> container_end k = Some e' -> i < e' -> e' < e ->
@@ -63,7 +63,7 @@ Fixpoint dyckb (fuel : nat) (t : ttape) (i e : nat) : bool :=
             | TEnd _ => false
             | THeader _ =>
                 match tget t (S i) with
-                | Some k' => is_container k' && dyckb f t (S i) e
+                | Some k' => is_container k' && Nat.ltb (S i) e && dyckb f t (S i) e
                 | None => false
                 end
             | _ => dyckb f t (S i) e
